@@ -110,16 +110,16 @@ theorem machine_stateless (f : Nat) (ts : List Tok) (history : List (List Tok)) 
 /-- The three WHERE-clause hooks are closures with a `lastNopToken` each. Whatever they remember from
     statements parsed earlier with the same parser — accepted or rejected, broken off after a modifier
     keyword or not — what is extracted from a new statement — pattern clauses, projections, input graphs, GROUP BY, ORDER BY,
-    LIMIT, global time bounds — is the same (the model resets a
+    LIMIT, global time bounds, statement type, graph names, data triples, construct template — is the same (the model resets a
     closure when it sees another statement: 7ebb438). -/
 theorem hooks_keep_no_state (stmt : Nat) (hs hp ho hv hs' hp' ho' hv' : BW.Model.Hooks.HState)
-    (hb hb' : BW.Model.Hooks.BState)
-    (h1 : hs.cur ≠ stmt) (h2 : hp.cur ≠ stmt) (h3 : ho.cur ≠ stmt) (h4 : hv.cur ≠ stmt) (h5 : hb.cur ≠ stmt)
-    (h1' : hs'.cur ≠ stmt) (h2' : hp'.cur ≠ stmt) (h3' : ho'.cur ≠ stmt) (h4' : hv'.cur ≠ stmt) (h5' : hb'.cur ≠ stmt)
+    (hb hb' : BW.Model.Hooks.BState) (da da' : BW.Model.Hooks.DAcc)
+    (h1 : hs.cur ≠ stmt) (h2 : hp.cur ≠ stmt) (h3 : ho.cur ≠ stmt) (h4 : hv.cur ≠ stmt) (h5 : hb.cur ≠ stmt) (h6 : da.cur ≠ stmt)
+    (h1' : hs'.cur ≠ stmt) (h2' : hp'.cur ≠ stmt) (h3' : ho'.cur ≠ stmt) (h4' : hv'.cur ≠ stmt) (h5' : hb'.cur ≠ stmt) (h6' : da'.cur ≠ stmt)
     (evs : List BW.Model.Hooks.HEv) :
-    (BW.Model.Hooks.wrun { stmt := stmt, hs := hs, hp := hp, ho := ho, hv := hv, hb := hb } evs).map (fun w => (w.pattern, w.head)) =
-    (BW.Model.Hooks.wrun { stmt := stmt, hs := hs', hp := hp', ho := ho', hv := hv', hb := hb' } evs).map (fun w => (w.pattern, w.head)) :=
-  BW.Proofs.Hooks.hooks_stateless stmt hs hp ho hv hs' hp' ho' hv' hb hb' h1 h2 h3 h4 h5 h1' h2' h3' h4' h5' evs
+    (BW.Model.Hooks.wrun { stmt := stmt, hs := hs, hp := hp, ho := ho, hv := hv, hb := hb, da := da } evs).map (fun w => (w.pattern, w.head)) =
+    (BW.Model.Hooks.wrun { stmt := stmt, hs := hs', hp := hp', ho := ho', hv := hv', hb := hb', da := da' } evs).map (fun w => (w.pattern, w.head)) :=
+  BW.Proofs.Hooks.hooks_stateless stmt hs hp ho hv hs' hp' ho' hv' hb hb' da da' h1 h2 h3 h4 h5 h6 h1' h2' h3' h4' h5' h6' evs
 
 /-! ### Which hook sees which tokens (regenerated by probing the hooks of `grammar.SemanticBQL()`) -/
 
@@ -130,29 +130,56 @@ def reachN : Nat → List Sym → List Sym
   | 0, l => l
   | n + 1, l => reachN n (l ++ (l.flatMap succs).filter (fun x => !l.contains x))
 
+/-- Every alternative of `s` hands its tokens to hook `p`. -/
+def altsAll (s : Sym) (p : BW.Model.Hooks.Part) : Bool := (List.range (bql.rules s).length).all fun i => partOf s i == p
+
 /-- The tokens of a clause's subject part go to the subject hook, those of its predicate part to the
     predicate hook, those of its object part to the object hook; those of the SELECT list to the projection
     hook, of the FROM list to the input-graph hook, of GROUP BY, ORDER BY, LIMIT and the global time bound to
-    theirs; and to no other. Clauses are opened and closed by the next-clause hook, the pattern by the init
-    hook; the end of WHERE flushes the working projection; the ORDER BY list is closed by its checker; every
-    alternative of a symbol carries the same hooks. -/
+    theirs; the tokens of INSERT / DELETE statements to the data accumulator (the only symbol whose
+    alternatives differ is START: alternatives 1 and 2), graph lists of CREATE / DROP and of INTO / IN to the two
+    graph accumulators, template subjects, predicates and objects to the construct hooks; and to no other.
+    Clauses are opened and closed by the next-clause hook, the pattern by the init hook; the end of WHERE
+    flushes the working projection; the ORDER BY list is closed by its checker; the statement type is bound
+    where the statement's body ends; template clauses and pairs are opened and closed by their hooks; every
+    alternative of a symbol carries the same clause hooks. -/
 theorem routing_wf :
-    hooksUniform = true ∧
-    (reachN 6 [.SUBJECT_EXTRACT]).all (fun s => partOf s == .subj) = true ∧
-    (reachN 6 [.PREDICATE]).all (fun s => partOf s == .pred) = true ∧
-    (reachN 6 [.OBJECT]).all (fun s => partOf s == .obj) = true ∧
-    (reachN 6 [.ORDER_BY]).all (fun s => partOf s == .order) = true ∧
-    (reachN 6 [.VARS]).all (fun s => partOf s == .vars) = true ∧
-    (reachN 6 [.INPUT_GRAPHS]).all (fun s => partOf s == .inGraphs) = true ∧
-    (reachN 6 [.GROUP_BY]).all (fun s => partOf s == .group) = true ∧
-    (reachN 6 [.LIMIT]).all (fun s => partOf s == .limit) = true ∧
-    (reachN 6 [.GLOBAL_TIME_BOUND]).all (fun s => partOf s == .bounds) = true ∧
-    [Sym.FIRST_CLAUSE, .CLAUSES, .OPTIONAL_CLAUSE].all (fun s => partOf s == .subj) = true ∧
-    allSyms.all (fun s => partOf s == .none || (reachN 6 [.SUBJECT_EXTRACT, .PREDICATE, .OBJECT, .FIRST_CLAUSE, .CLAUSES,
-      .OPTIONAL_CLAUSE, .ORDER_BY, .VARS, .INPUT_GRAPHS, .GROUP_BY, .LIMIT, .GLOBAL_TIME_BOUND]).contains s) = true ∧
+    hooksUniform = true ∧ splitSyms = [.START] ∧
+    (List.range (bql.rules .START).length).map (partOf .START) = [.none, .data, .data, .none, .none, .none, .none, .none] ∧
+    (reachN 6 [.SUBJECT_EXTRACT]).all (altsAll · .subj) = true ∧
+    (reachN 6 [.PREDICATE]).all (altsAll · .pred) = true ∧
+    (reachN 6 [.OBJECT]).all (altsAll · .obj) = true ∧
+    (reachN 6 [.ORDER_BY]).all (altsAll · .order) = true ∧
+    (reachN 6 [.VARS]).all (altsAll · .vars) = true ∧
+    (reachN 6 [.INPUT_GRAPHS]).all (altsAll · .inGraphs) = true ∧
+    (reachN 6 [.GROUP_BY]).all (altsAll · .group) = true ∧
+    (reachN 6 [.LIMIT]).all (altsAll · .limit) = true ∧
+    (reachN 6 [.GLOBAL_TIME_BOUND]).all (altsAll · .bounds) = true ∧
+    [Sym.FIRST_CLAUSE, .CLAUSES, .OPTIONAL_CLAUSE].all (altsAll · .subj) = true ∧
+    (reachN 6 [.INSERT_OBJECT, .INSERT_DATA, .DELETE_OBJECT, .DELETE_DATA]).all (altsAll · .data) = true ∧
+    (reachN 6 [.GRAPHS]).all (altsAll · .graphs) = true ∧
+    (reachN 6 [.OUTPUT_GRAPHS]).all (altsAll · .outGraphs) = true ∧
+    [Sym.CONSTRUCT_TRIPLES, .DECONSTRUCT_TRIPLES].all (altsAll · .cSubj) = true ∧
+    altsAll .CONSTRUCT_PREDICATE .cPred = true ∧ altsAll .CONSTRUCT_OBJECT .cObj = true ∧
+    allSyms.all (fun s => altsAll s .none || s == .START || (reachN 6 [.SUBJECT_EXTRACT, .PREDICATE, .OBJECT, .FIRST_CLAUSE, .CLAUSES,
+      .OPTIONAL_CLAUSE, .ORDER_BY, .VARS, .INPUT_GRAPHS, .GROUP_BY, .LIMIT, .GLOBAL_TIME_BOUND, .INSERT_OBJECT, .INSERT_DATA,
+      .DELETE_OBJECT, .DELETE_DATA, .GRAPHS, .OUTPUT_GRAPHS, .CONSTRUCT_TRIPLES, .DECONSTRUCT_TRIPLES, .CONSTRUCT_PREDICATE,
+      .CONSTRUCT_OBJECT]).contains s) = true ∧
     [Sym.FIRST_CLAUSE, .CLAUSES, .MORE_CLAUSES].all (fun s => startHook s == .next && endHook s == .next) = true ∧
     startHook .WHERE = .init ∧ endHook .WHERE = .flushVars ∧ endHook .ORDER_BY = .orderCheck ∧
-    allSyms.all (fun s => (startHook s == .none && endHook s == .none) || [Sym.FIRST_CLAUSE, .CLAUSES, .MORE_CLAUSES, .WHERE, .ORDER_BY].contains s) = true := by
+    [Sym.CONSTRUCT_TRIPLES, .MORE_CONSTRUCT_TRIPLES, .DECONSTRUCT_TRIPLES, .MORE_DECONSTRUCT_TRIPLES].all
+      (fun s => startHook s == .cNext && endHook s == .cNext) = true ∧
+    startHook .CONSTRUCT_FACTS = .cInit ∧ startHook .DECONSTRUCT_FACTS = .cInit ∧
+    startHook .CONSTRUCT_PREDICATE = .cPair ∧ endHook .CONSTRUCT_PREDICATE = .none ∧
+    startHook .CONSTRUCT_OBJECT = .none ∧ endHook .CONSTRUCT_OBJECT = .cPair ∧
+    endHook .INSERT_OBJECT = .bindType .insert ∧ endHook .DELETE_OBJECT = .bindType .delete ∧
+    endHook .CREATE_GRAPHS = .bindType .create ∧ endHook .DROP_GRAPHS = .bindType .drop ∧
+    endHook .CONSTRUCT_FACTS = .bindType .construct ∧ endHook .DECONSTRUCT_FACTS = .bindType .deconstruct ∧
+    endHook .GRAPH_SHOW = .bindType .show ∧
+    allSyms.all (fun s => (startHook s == .none && endHook s == .none) || [Sym.FIRST_CLAUSE, .CLAUSES, .MORE_CLAUSES, .WHERE, .ORDER_BY,
+      .CONSTRUCT_TRIPLES, .MORE_CONSTRUCT_TRIPLES, .DECONSTRUCT_TRIPLES, .MORE_DECONSTRUCT_TRIPLES, .CONSTRUCT_FACTS,
+      .DECONSTRUCT_FACTS, .CONSTRUCT_PREDICATE, .CONSTRUCT_OBJECT, .INSERT_OBJECT, .DELETE_OBJECT, .CREATE_GRAPHS, .DROP_GRAPHS,
+      .GRAPH_SHOW].contains s) = true := by
   decide +kernel
 
 /-! Non-vacuity: a real statement is greedily derivable and accepted. -/
